@@ -28,8 +28,10 @@ GEN = os.path.join(COQ, "gen")
 NPROC = int(os.environ.get("VERIF_JOBS", "16"))
 DEFAULT_SEED = 20260930
 
-VERDICTS = ("Agree", "Differ", "ModelUndefined", "ImplError", "BothReject")
-GOOD = ("Agree", "BothReject")
+VERDICTS = ("Agree", "Differ", "ModelUndefined", "ImplError", "BothReject", "ModelSingular")
+# ModelSingular: an inner system of the model is exactly singular while floating point returned numbers —
+# outside "for which it is defined"; counted in the evidence, never an alarm
+GOOD = ("Agree", "BothReject", "ModelSingular")
 
 
 def setup_repo_import():
@@ -219,7 +221,7 @@ def parse_verdicts(out: str):
     i = out.find("verdicts =")
     if i < 0:
         return None
-    return re.findall(r"\b(Agree|Differ|ModelUndefined|ImplError|BothReject)\b", out[i:])
+    return re.findall(r"\b(Agree|Differ|ModelUndefined|ImplError|BothReject|ModelSingular)\b", out[i:])
 
 
 # ---------------------------------------------------------------------------------------------
